@@ -670,6 +670,31 @@ impl Sim for C20 {
         }
       }
     }
+    // a hot invocable: every task calls the SAME invocable several times in a row, each task with an input
+    // of its own - what the invocable keeps between calls is met by its owner again while the others write it
+    if rng.chance(1, 6) {
+      let all: Vec<Value> = tasks.iter().flat_map(|t| t.as_array().cloned().unwrap_or_default()).collect();
+      if !all.is_empty() {
+        let hot = rng.pick(&all).clone();
+        let hot_row = s.rows.iter().find(|r| r.model == pstr(&hot, "model") && r.invocable == pstr(&hot, "invocable"));
+        for (ti, t) in tasks.iter_mut().enumerate() {
+          let unique = (ti as u64) * 100 + 11;
+          let ctx = if pstr(&hot, "model") == "gen" {
+            if pstr(&hot, "invocable") == "label" {
+              format!("{{n: {}, t: \"ab{}_0\"}}", unique, unique)
+            } else {
+              format!("{{x: {}, s: \"ab{}_0\"}}", unique, unique)
+            }
+          } else if let Some(row) = hot_row {
+            fill_hole(&mut rng, &row.ctx, unique)
+          } else {
+            pstr(&hot, "ctx").to_string()
+          };
+          let n = 2 + rng.index(3);
+          *t = Value::Array((0..n).map(|_| json!({"model": pstr(&hot, "model"), "invocable": pstr(&hot, "invocable"), "ctx": ctx})).collect());
+        }
+      }
+    }
     let kind = match rng.index(8) {
       0..=2 => json!({"kind": "random"}),
       3..=6 => json!({"kind": "pct", "depth": 1 + rng.index(5)}),
